@@ -911,7 +911,7 @@ def ifexp_to_if(fn) -> int:
     def expand(s):
         nonlocal count
         if isinstance(s, (ast.Return, ast.Assign, ast.AnnAssign)) and isinstance(getattr(s, "value", None), ast.IfExp):
-            if isinstance(s, ast.Assign) and any(not isinstance(t, (ast.Name, ast.Attribute)) for t in s.targets):
+            if isinstance(s, ast.Assign) and any(not isinstance(t, (ast.Name, ast.Attribute, ast.Subscript)) for t in s.targets):
                 return [s]
             count += 1
             return [split(s)]
